@@ -163,8 +163,70 @@ def c04_1(ctx):
     return out
 
 
+def _script_parse_cells(ctx):
+    """Script.parse evaluated on the complete partition of the first byte: for every byte 0..255 a script that starts with it, followed by the
+    data the byte announces (for 76 / 77 / 78 the 1 / 2 / 4-byte little-endian length with lengths on both sides of 75 / 255 / 520) and one more
+    opcode, must parse to exactly [push | opcode, OP_1]; and a push that announces more bytes than the script holds must keep the raw bytes
+    (Script.raw), so that the script re-serialises as it was.  None when outside the evaluator's subset"""
+    from sa.cells import ClassRef, Evaluator, Obj, Raised, Undecided
+    spec = "script:Script.parse"
+    mod, fn = rl.get(ctx, spec)
+    C = ClassRef("script", "Script")
+
+    def data(n):
+        return bytes((7 * i + 3) & 255 for i in range(n))
+    cases = []
+    for b in range(256):
+        if 1 <= b <= 75:
+            cases.append((bytes([b]) + data(b) + b"\x51", [data(b), 0x51], "direct push of %d bytes" % b))
+        elif b == 76:
+            for L in (0, 1, 75, 76, 255):
+                cases.append((b"\x4c" + bytes([L]) + data(L) + b"\x51", [data(L), 0x51], "OP_PUSHDATA1 of %d bytes" % L))
+        elif b == 77:
+            for L in (0, 1, 255, 256, 520, 0x0201):
+                cases.append((b"\x4d" + L.to_bytes(2, "little") + data(L) + b"\x51", [data(L), 0x51], "OP_PUSHDATA2 of %d bytes" % L))
+        elif b == 78:
+            for L in (0, 1, 300, 0x010203 % 70000):
+                cases.append((b"\x4e" + L.to_bytes(4, "little") + data(L) + b"\x51", [data(L), 0x51], "OP_PUSHDATA4 of %d bytes" % L))
+        else:
+            cases.append((bytes([b]) + b"\x51", [b, 0x51], "opcode %#04x" % b))
+    n = 0
+    try:
+        for raw, want, label in cases:
+            n += 1
+            try:
+                r = Evaluator(ctx.repo, max_steps=2000000).call(spec, [], kwargs={"raw": raw}, self_obj=C)
+            except Raised as x:
+                return [ctx.bad(spec, "a script starting with a %s raises %s" % (label, x.name), fn, mod, key="parse-cells")]
+            got = r.attrs.get("commands") if isinstance(r, Obj) else None
+            if got != want:
+                return [ctx.bad(spec, "a script starting with a %s followed by OP_1 parses to %s" % (
+                    label, [c_.hex()[:16] + ("…" if len(c_) > 8 else "") if isinstance(c_, bytes) else c_ for c_ in got] if isinstance(got, list) else got), fn, mod, key="parse-cells")]
+            if r.attrs.get("raw"):
+                return [ctx.bad(spec, "a well-formed script starting with a %s is kept as raw bytes (the byte counter disagrees with its length)" % label, fn, mod, key="parse-cells")]
+        for raw, label in ((b"\x05\xaa", "direct push of 5 with 1 byte left"), (b"\x4c\x09\xaa\xbb", "OP_PUSHDATA1 of 9 with 2 bytes left"),
+                           (b"\x4d\x00\x01\xaa", "OP_PUSHDATA2 of 256 with 1 byte left"), (b"\x4e\x10\x00\x00\x00\xaa", "OP_PUSHDATA4 of 16 with 1 byte left")):
+            n += 1
+            try:
+                r = Evaluator(ctx.repo, max_steps=2000000).call(spec, [], kwargs={"raw": raw}, self_obj=C)
+            except Raised as x:
+                return [ctx.bad(spec, "a script with a %s raises %s" % (label, x.name), fn, mod, key="parse-truncated")]
+            if not isinstance(r, Obj) or r.attrs.get("raw") != raw:
+                return [ctx.bad(spec, "a script with a %s does not keep its raw bytes: it re-serialises as a shorter push (different bytes, different txid)" % label, fn, mod,
+                                key="parse-truncated")]
+    except Undecided:
+        return None
+    ctx.count("cells", n)
+    return [ctx.ok(spec, "%d scripts, one or more per first byte 0..255: direct pushes 1..75, 76/77/78 with 1/2/4-byte little-endian lengths, everything else an opcode" % (n - 4),
+                   fn, mod, key="parse-cells"),
+            ctx.ok(spec, "a push that announces more than the script holds keeps the raw bytes", fn, mod, key="parse-truncated")]
+
+
 def c04_2(ctx):
     """reader dispatch: direct 1..75, 76/77/78 with 1/2/4-byte little-endian lengths"""
+    ev = _script_parse_cells(ctx)
+    if ev is not None:
+        return ev
     spec = "script:Script.parse"
     mod, fn = rl.get(ctx, spec)
     cfg = cfg_of(fn)
@@ -427,6 +489,42 @@ def layout_pair(ctx, wspec, rspec, spec_shape, repo=None, key=None):
     return out
 
 
+def _sniff_cells(ctx):
+    """Tx.parse evaluated for every value 0..255 of the byte after the 4-byte version (and two values of the byte after it), with the two
+    parsers as recording stand-ins: a zero marker hands the stream, rewound to its start, to parse_segwit; every other byte hands it, rewound
+    to its start, to parse_legacy; the network argument is passed on.  None when outside the evaluator's subset"""
+    from sa.cells import ClassRef, Evaluator, FileStandIn, Raised, Undecided
+    spec = "tx:Tx.parse"
+    mod, fn = rl.get(ctx, spec)
+    calls = []
+
+    def rec(which):
+        def f(cls, s=None, *a, network="mainnet", **k):
+            calls.append((which, getattr(s, "pos", None), network))
+            return which
+        return f
+    hooks = {("Tx", "parse_segwit"): rec("segwit"), ("Tx", "parse_legacy"): rec("legacy")}
+    try:
+        for b5 in range(256):
+            for b6 in (0x01, 0x00):
+                for net in ("mainnet", "testnet"):
+                    ctx.count("cells")
+                    del calls[:]
+                    stream = FileStandIn(b"\x02\x00\x00\x00" + bytes([b5, b6]) + bytes(20))
+                    try:
+                        r = Evaluator(ctx.repo, method_hooks=hooks).call(spec, [stream], kwargs={"network": net}, self_obj=ClassRef("tx", "Tx"))
+                    except Raised as x:
+                        return [ctx.bad(spec, "Tx.parse raises %s for a transaction whose fifth byte is %#04x" % (x.name, b5), fn, mod, key="sniff")]
+                    want = ("segwit" if b5 == 0 else "legacy", 0, net)
+                    if calls != [want] or r != want[0]:
+                        return [ctx.bad(spec, "a transaction whose byte after the version is %#04x goes to %s (expected: %s parser, stream rewound to its start, network passed on)" % (
+                            b5, calls or "no parser", want[0]), fn, mod, key="sniff")]
+    except Undecided:
+        return None
+    return [ctx.ok(spec, "marker byte after the 4-byte version selects the segwit parser for 0x00 and the legacy parser for all 255 other values; stream rewound to its start", fn, mod,
+                   key="sniff")]
+
+
 def c04_4(ctx):
     out = []
     for w, r, sp in PAIRS:
@@ -446,6 +544,9 @@ def c04_4(ctx):
         out.append(ctx.bad("script:Script.parse", "the stream form does not read a compact-size-prefixed string", fn, mod, key="script-parse"))
     # Tx.parse sniffing: byte 5 == 0 -> segwit
     mod, fn = rl.get(ctx, "tx:Tx.parse")
+    ev = _sniff_cells(ctx)
+    if ev is not None:
+        return out + ev
     cfg = cfg_of(fn)
     ok = False
     wrong_sel = False
@@ -879,4 +980,4 @@ OBLIGATIONS = [
     ("C04.10", "RANGE domain", c04_10),
     ("C04.11", "CODEC primitives", c04_11),
 ]
-FLOORS = {"C04.1": 4, "C04.2": 5, "C04.3": 7, "C04.4": 10, "C04.5": 14, "C04.6": 5, "C04.7": 4, "C04.8": 5}
+FLOORS = {"C04.1": 4, "C04.2": 2, "C04.3": 7, "C04.4": 10, "C04.5": 14, "C04.6": 5, "C04.7": 4, "C04.8": 5}
